@@ -1,5 +1,10 @@
 // C06 - a suspend point never loses or duplicates a ready coroutine
 #include <scn/suspend_point.h>
+#include <new>
+// array forms only: suspend_point<void> is the only user of new[]/delete[] in these programs
+void *operator new[](std::size_t n) { void *p = malloc(n ? n : 1); if (!p) throw std::bad_alloc(); scn::g_arrays_live.fetch_add(1, std::memory_order_relaxed); return p; }
+void operator delete[](void *p) noexcept { if (p) { scn::g_arrays_live.fetch_sub(1, std::memory_order_relaxed); free(p); } }
+void operator delete[](void *p, std::size_t) noexcept { operator delete[](p); }
 #define RUN(name, nthreads, wd, call) if (o.want(name)) { vf::report R("C06", name, o); vf::g_active_report = &R; vf::team T(nthreads, o, wd); call; T.export_hits(R); R.write(); vf::g_active_report = nullptr; }
 int main(int argc, char **argv) {
     vf::opts o(argc, argv);
